@@ -186,13 +186,20 @@ def build(fdtdx, system, use_helpers=True):
     return [objs[n] for n in names], cons, config
 
 
-def resolve(fdtdx, system):
-    """Run the real solver.  -> (ok, slices|None, errors|exception text)."""
+def resolve(fdtdx, system, crash_ok=False):
+    """Run the real solver.  -> (ok, slices|None, errors|exception text).
+
+    ok is True / False, or None when `crash_ok` and the solver crashed with something that is not a
+    documented rejection (without `crash_ok` such an exception propagates)."""
     objects, cons, config = build(fdtdx, system)
     try:
         slices, errors = fdtdx.resolve_object_constraints(objects=objects, constraints=cons, config=config)
-    except (ValueError, Exception) as e:  # noqa: BLE001  documented rejections raise ValueError / Exception
-        if isinstance(e, (IndexError, TypeError, AttributeError, KeyError, ZeroDivisionError)):
+    except Exception as e:  # noqa: BLE001
+        # documented rejections are raised as ValueError or as a bare Exception; anything else
+        # (IndexError, TypeError, ...) is a crash and must surface as such
+        if not (isinstance(e, ValueError) or type(e) is Exception):
+            if crash_ok:
+                return None, None, {"__crashed__": f"{type(e).__name__}: {e}"}
             raise
         return False, None, {"__raised__": f"{type(e).__name__}: {e}"}
     failed = {k: v for k, v in errors.items() if v}
@@ -667,7 +674,7 @@ def gen_system(rng, mode=None, grid_kind=None, max_objects=8):
             # a position relation to some other object (this is what the one-pass solver may skip)
             dummy = {"rpos": [None] * 3}
             mode = "mixed"
-            sp = position_spec(max(i, 1) if n_obj > 1 else 0, name, dummy, a, lo2, hi2, allow_none=False)
+            sp = position_spec(n_obj, name, dummy, a, lo2, hi2, allow_none=False)
             mode = saved_mode
             if dummy["rpos"][a] is not None and system["objects"][i]["rpos"][a] is None:
                 system["objects"][i]["rpos"][a] = dummy["rpos"][a]
@@ -675,7 +682,7 @@ def gen_system(rng, mode=None, grid_kind=None, max_objects=8):
         elif u < 0.8:
             side = str(rng.choice(["-", "+"]))
             mode = "mixed"
-            extras.append(bound_spec(i, name, a, side, lo2 if side == "-" else hi2))
+            extras.append(bound_spec(n_obj, name, a, side, lo2 if side == "-" else hi2))
             mode = saved_mode
         else:
             ref = VOL if n_obj == 1 else f"o{int(rng.integers(n_obj))}"
@@ -869,3 +876,46 @@ def family_system(p):
 
 def strip_meta(system):
     return {k: v for k, v in system.items() if k != "meta"}
+
+
+# --------------------------------------------------------------------------------------------
+# classification aid: would the solver's OWN consistency rules reject the final state?
+# --------------------------------------------------------------------------------------------
+def solver_self_check(fdtdx, system, slices):
+    """Re-apply fdtdx's private per-constraint routines to the final slices (everything already set, so
+    each routine only performs its consistency comparison).  Returns {"constraints": set of constraint
+    indices the solver itself rejects, "objects": set of object names whose static size the solver rejects}.
+    Used ONLY to name the mechanism of a violation found by `verify`; never to judge."""
+    import fdtdx.fdtd.initialization as init
+
+    plain = {k: v for k, v in system.items() if k not in ("obj_order", "con_order", "meta")}
+    objects, cons, config = build(fdtdx, plain)
+    config = init._resolve_grid_from_volume(objects, config)
+    omap = {o.name: o for o in objects}
+    sd = {n: [[s[a][0], s[a][1]] for a in range(3)] for n, s in slices.items()}
+    shp = {n: [s[a][1] - s[a][0] for a in range(3)] for n, s in slices.items()}
+    bad = {"constraints": set(), "objects": set()}
+    for i, c in enumerate(cons):
+        nm = type(c).__name__
+        try:
+            if nm == "GridCoordinateConstraint":
+                init._apply_grid_coordinate_constraint(c, omap, sd, config)
+            elif nm == "RealCoordinateConstraint":
+                init._apply_real_coordinate_constraint(c, omap, sd, config)
+            elif nm == "PositionConstraint":
+                init._apply_position_constraint(c, omap, config, shp, sd)
+            elif nm == "SizeConstraint":
+                init._apply_size_constraint(c, omap, config, shp, sd)
+            elif nm == "SizeExtensionConstraint":
+                init._apply_size_extension_constraint(c, omap, config, sd, VOL)
+        except Exception:  # noqa: BLE001
+            bad["constraints"].add(i)
+    static = {n: [None, None, None] for n in sd}
+    try:
+        static = init._resolve_static_shapes(omap, static, config)
+        for n, s in static.items():
+            if any(s[a] is not None and s[a] != shp[n][a] for a in range(3)):
+                bad["objects"].add(n)
+    except Exception:  # noqa: BLE001
+        pass
+    return bad
